@@ -402,6 +402,23 @@ Definition is_hex_lower (c : ascii) : bool :=
 (** the digest argument is a lower-case hex string of the algorithm's length *)
 Definition digest_ok (c : cfg) (digest : bytes) : bool :=
   (blen digest =? alg_hexlen (c_alg c)) && forallb is_hex_lower digest.
+(** every string of the configuration is a well-formed Rust str *)
+Definition jv_wf (v : jv) : bool := match v with JStr s => ustr_wf s | _ => true end.
+Definition raw_wf (r : raw) : bool :=
+  match r with
+  | RawObj o => jv_wf (r_ext o) && jv_wf (r_alg o) && jv_wf (r_ts o) && jv_wf (r_nt o) && jv_wf (r_short o) &&
+                jv_wf (r_delim o) && jv_wf (r_pad o) && jv_wf (r_rev o)
+  | RawSeq l => forallb jv_wf l
+  | _ => true
+  end.
+Definition inputs_ok (c : cfg) (id : ustr) (digest : bytes) : bool :=
+  ustr_wf id && ustr_wf (c_delim c) && digest_ok c digest.
+(** an ASCII-only string with its (ASCII) case mappings; used by examples and by the
+    driver for ASCII inputs *)
+Definition to_ascii_upper (c : ascii) : ascii :=
+  if (97 <=? code c) && (code c <=? 122) then ascii_of_N (code c - 32) else c.
+Definition ascii_ustr (s : bytes) : ustr :=
+  mkS (List.map (fun c => mkU [c] [to_ascii_lower c]) s) (List.map to_ascii_lower s) (List.map to_ascii_upper s).
 (** map_object_id has no error channel: an id it cannot map is a panic; for the
     property both count as "refused" *)
 Definition refusal {A} (r : res A) : res A := match r with Panic => Err | x => x end.
